@@ -86,6 +86,25 @@ def run_case(case, variant):
     # instead of ConnectionPool(proxy=httpcore.Proxy(...))
     full_variant = variant
     legacy = variant.endswith("-legacy")
+    if variant.endswith("-debuglog"):
+        # the same case with DEBUG logging switched on for the "httpcore" loggers: every Trace block then takes its logging branch
+        import logging
+        lg = logging.getLogger("httpcore")
+        old_level, old_disable = lg.level, logging.root.manager.disable
+        h_ = logging.NullHandler()
+        lg.addHandler(h_)
+        logging.disable(logging.NOTSET)
+        lg.setLevel(logging.DEBUG)
+        try:
+            out_ = run_case(case, variant.split("-")[0])
+        finally:
+            lg.setLevel(old_level)
+            lg.removeHandler(h_)
+            logging.disable(old_disable)
+        for o_ in out_:
+            o_["case"]["variant"] = full_variant
+            o_["message"] = o_["message"].replace(f"variant={variant.split('-')[0]} ", f"variant={full_variant} ", 1)
+        return out_
     variant = variant.split("-")[0]
     kind, cred, ph, origin, rh, body, reply = case[:7]
     ext = dict(EXTS[case[7]]) if len(case) > 7 else {}
@@ -380,7 +399,9 @@ def run_case(case, variant):
 def _job(chunk):
     out, n, classes = [], 0, set()
     for case in chunk:
-        for variant in ("sync", "async", "sync-legacy", "async-legacy"):
+        for variant in ("sync", "async", "sync-legacy", "async-legacy", "sync-debuglog", "async-debuglog"):
+            if variant.endswith("-debuglog") and case[1] is None:
+                continue        # with DEBUG logging: the cases that carry proxy credentials
             n += 1
             v = run_case(case, variant)
             out += v[:3]
@@ -407,7 +428,7 @@ def check(tier="quick", seed=0, workers=None, only=None):
             classes |= cl
     cov = {"evaluations": total, "distinct_nontrivial": len(classes), "exhaustive": True,
            "rule": ("full product proxy kind x credentials x proxy headers (incl. case-insensitive collisions) x origin x request headers x body x proxy reply "
-                    "(10 CONNECT replies; SOCKS method x auth x 11 connect replies), sync and async, pool built as ConnectionPool(proxy=Proxy(...)) and as an HTTPProxy / SOCKSProxy object; IP-literal origins (IPv6 with and without port, IPv4); "
+                    "(10 CONNECT replies; SOCKS method x auth x 11 connect replies), sync and async, pool built as ConnectionPool(proxy=Proxy(...)) and as an HTTPProxy / SOCKSProxy object, the cases with credentials again with DEBUG logging on; IP-literal origins (IPv6 with and without port, IPv4); "
                     "every case whose reply lets the exchange proceed (and one refusal) again with the sni_hostname and the target request extension, and with a Request object that was already sent once through another pool; distinct class = (kind, creds?, proxy headers, scheme, request headers, body?, reply, violated?)"),
            "samples": [{"case": repr(c)[:300]} for c in allc[:: max(1, len(allc) // 5)][:5]], "cases": len(allc)}
     return {"level": "exploration", "coverage": cov, "violations": viols,
